@@ -260,6 +260,9 @@ type DGen struct {
 	R *rand.Rand
 	// Internal: emit sub()/node()/subnode() request rules between ordinary ones.
 	Internal bool
+	// RichInternal: internal selectors with several keys, negation, catch-all forms and
+	// neighbouring rules that satisfy the optimiser's merge precondition.
+	RichInternal bool
 	MaxReq   int
 	MaxResp  int
 }
@@ -311,6 +314,35 @@ func (g *DGen) genCond(fn string, tags []string) RCond {
 		for i := 0; i < n; i++ {
 			c.Params = append(c.Params, RParam{"", g.pick(tags)})
 		}
+	case "sub", "node", "subnode":
+		if g.RichInternal {
+			c.Not = g.R.IntN(4) == 0
+			c.Params = nil
+			var keys [][2][]string // key, value pool
+			subTags := [2][]string{{"", "tag"}, {"s1", "s2", "s3"}}
+			switch fn {
+			case "sub":
+				keys = [][2][]string{subTags, {{"tag_regex", "regex"}, {"^s[12]$", "3$"}}, {{"link_keyword"}, {"alpha", "beta"}}, {{"link_regex"}, {"^https://a", "beta$"}}}
+			case "node":
+				keys = [][2][]string{{{"", "name"}, {"hk-1", "jp-1"}}, {{"name_keyword"}, {"hk", "jp", "-1"}}, {{"name_regex"}, {"^hk", "2$"}}, {{"link_keyword"}, {"alpha", "beta"}}, {{"link_regex"}, {"^ss://", "beta$"}}}
+			case "subnode":
+				subTags[0] = []string{"", "subtag"}
+				keys = [][2][]string{subTags, subTags, {{"subtag_regex", "regex"}, {"^s[12]$", "3$"}}, {{"name"}, {"hk-1", "jp-1"}}, {{"name_keyword"}, {"hk", "jp", "-1"}}, {{"name_keyword"}, {"hk", "jp", "-1"}}, {{"name_regex"}, {"^hk", "2$"}}, {{"link_keyword"}, {"alpha", "beta"}}}
+			}
+			np := 1 + g.R.IntN(3) // the catch-all forms sub()/node()/subnode() of example.dae are rejected by the parser ("empty parameter list")
+			for i := 0; i < np; i++ {
+				k := keys[g.R.IntN(len(keys))]
+				c.Params = append(c.Params, RParam{g.pick(k[0]), g.pick(k[1])})
+			}
+			return c
+		}
+		return g.genPlainInternal(fn, c)
+	}
+	return c
+}
+
+func (g *DGen) genPlainInternal(fn string, c RCond) RCond {
+	switch fn {
 	case "sub":
 		c.Not = false
 		c.Params = []RParam{{"", g.pick([]string{"s1", "s2"})}}
@@ -329,9 +361,22 @@ func (g *DGen) genRules(max int, funcs []string, outs []string, tags []string, i
 	var rules []DRule
 	for i := 0; i < n; i++ {
 		var r DRule
-		if internal && g.R.IntN(5) == 0 {
+		if internal && g.RichInternal && len(rules) > 0 && rules[len(rules)-1].Internal() && g.R.IntN(2) == 0 {
+			// neighbour sharing selector, negation and target (merge precondition of the optimiser)
+			pr := rules[len(rules)-1]
+			c := g.genCond(pr.Conds[0].Func, tags)
+			c.Not = pr.Conds[0].Not
+			r.Conds = []RCond{c}
+			r.Out = pr.Out
+			rules = append(rules, r)
+			continue
+		}
+		if internal && g.R.IntN(5) == 0 || internal && g.RichInternal && g.R.IntN(3) == 0 {
 			fn := g.pick([]string{"sub", "node", "subnode"})
 			r.Conds = []RCond{g.genCond(fn, tags)}
+			if g.RichInternal && g.R.IntN(4) == 0 {
+				r.Conds = append(r.Conds, g.genCond(fn, tags))
+			}
 			r.Out = g.pick(tags) // internal selectors must target names defined in dns.upstream
 			rules = append(rules, r)
 			continue
